@@ -77,6 +77,39 @@ def construct(cls, a):
         return Parent(id="p", location=SingleInterval(0, a[0], S(a[3])),
                       sequence=Sequence("A" * a[1], Alphabet.NT_STRICT) if a[1] >= 0 else None,
                       strand=S(a[2]) if a[2] else None)
+    if cls == "QPOS":
+        genes = [GeneInterval([TranscriptInterval([a[0] + 2 + 3 * i], [a[0] + 6 + 3 * i], Strand.PLUS, transcript_id="q%d" % i)])
+                 for i in range(2)]
+        coll = AnnotationCollection(genes=genes, start=a[0], end=a[1])
+        kw = {}
+        if a[4]:
+            kw["start"] = a[2]
+        if a[5]:
+            kw["end"] = a[3]
+        res = coll.query_by_position(completely_within=False, **kw)
+        # what was built answers for the range that was asked
+        if (res.start, res.end) != (a[2] if a[4] else a[0], a[3] if a[5] else a[1]):
+            raise AttributeError("query result does not span the range asked: %r" % ((res.start, res.end),))
+        return res
+    if cls == "FSI":
+        from inscripta.biocantor.parent import SequenceType
+
+        def par(d):
+            if not d:
+                return None
+            pid, sv, ty = d
+            if sv:
+                return Parent(id=pid, sequence=Sequence(("ACGT" if sv == 1 else "TTGCA" * sv) * 6, Alphabet.NT_STRICT,
+                                                        id=pid, type=ty))
+            return Parent(id=pid, sequence_type=ty)
+
+        blocks = [SingleInterval(2 + 5 * i, 5 + 5 * i, S(st), parent=par(d)) for i, (d, st) in enumerate(zip(a[0], a[1]))]
+        if len(a[0]) != len(a[1]):
+            raise MachineryError("FSI tuple")
+        ci = CompoundInterval.from_single_intervals(blocks)
+        if ci.num_blocks != len(blocks) or (ci.parent is None) != (not a[0][0]):
+            raise AttributeError("half-built CompoundInterval")
+        return ci
     if cls == "CODON":
         from inscripta.biocantor.gene.codon import Codon
 
@@ -113,7 +146,7 @@ def _ctor_events(cases):
 def _random_cases(rnd, n):
     out = []
     for _ in range(n):
-        cls = rnd.choice(["SI", "CI", "CDS", "TX", "FEAT", "VAR", "VCOLL", "COLL", "GENE", "SEQ", "PARENT", "CODON"])
+        cls = rnd.choice(["SI", "CI", "CDS", "TX", "FEAT", "VAR", "VCOLL", "COLL", "GENE", "SEQ", "PARENT", "CODON", "QPOS", "FSI"])
         r = lambda lo=-1, hi=12: rnd.randrange(lo, hi)  # noqa: E731
         st = rnd.choice("+-.")
         sl = rnd.choice([-1, -1, 8, 10])
@@ -150,6 +183,18 @@ def _random_cases(rnd, n):
             if a[1] > a[0]:
                 a[1] = a[0]
             a[2] = a[2] and a[0] >= 2
+        elif cls == "QPOS":
+            cs = rnd.choice([0, 0, 3, 10])
+            ce = cs + rnd.choice([20, 30])
+            a = [cs, ce, rnd.choice([0, 0, cs, cs + 1, cs - 1, cs + 5, ce]), rnd.choice([0, 0, ce, ce - 1, ce + 1, cs + 4, cs]),
+                 rnd.random() < 0.75, rnd.random() < 0.75]
+        elif cls == "FSI":
+            k = rnd.randrange(0, 4)
+            pool = [[], ["P", 0, "chromosome"], ["P", 1, "chromosome"], ["P", 2, "chromosome"], ["P", 1, "plasmid"],
+                    ["P", 0, "plasmid"], ["Q", 1, "chromosome"]]
+            base = rnd.choice(pool)
+            a = [[base if rnd.random() < 0.75 else rnd.choice(pool) for _ in range(k)],
+                 [x for x in (lambda b: [b if rnd.random() < 0.85 else rnd.choice("+-.") for _ in range(k)])(rnd.choice("+-."))]]
         elif cls == "CODON":
             a = [[rnd.choice("ACGTUNRYacgtnw-X*. ") for _ in range(rnd.choice([3, 3, 3, 3, 2, 4, 0]))]]
         elif cls == "SEQ":
